@@ -167,11 +167,11 @@ def rf_range(num, den, lo, hi, pieces=256):
     return out
 
 
-def analyse_inv(mod, fname, func, bits, thr):
+def analyse_inv(mod, fname, func, bits, thr, arg_sign=None):
     from .c10 import Mismatch, ulps, lane_term, walk_terms
     track = 1
     T.reset()
-    term, w = lane_term(mod, fname)
+    term, w = lane_term(mod, fname, arg_sign)
     # 1. the transformed argument: operand of a squaring
     sq_ops = []
     for t in walk_terms(term):
@@ -383,3 +383,105 @@ def one_case(ex, ex0, g, conds, ucases, xlo, xhi, track, bits, func):
         rho_k = q_err * umax / true_lo
     return {'ulp_exact': ulps(rho, bits), 'ulp': float(ulps(rho, bits)), 'kernel_ulp': float(ulps(rho_k, bits)), 'offset': float(c_off), 'offset_multiple_of_pio4': j,
             'offset_err': float(e_off), 'slope': float(ms), 'kappa': float(kappa), 'u_range': (float(ulo), float(uhi)), 'degree': (N.deg(), D.deg())}
+
+
+def analyse_inv_pieces(mod, fname, func, bits, thr):
+    """acos: the same kernel comparison as analyse_inv, but the half lines x >= 0 and x <= 0 are analysed separately (the
+    sign bit of the argument is a constant) and the select case that serves a piece of |x| between two switch points is
+    found by evaluating the case's conditions at three points of the piece (exact constant propagation), because the
+    conditions of the inner asin compare sqrt((1 - |x|)/2) -- not |x| -- with 1/2."""
+    from .c10 import Mismatch, lane_term, walk_terms
+    from engine import pointeval as PE
+    from . import c10cont
+    track = 1
+    out = {'cases': []}
+    for sg in (0, 1):
+        T.reset()
+        term, w = lane_term(mod, fname, sg)
+        sq_ops = []
+        for t in walk_terms(term):
+            if t.name == 'fmul' and T._key(T.canon(t.ops[0])) == T._key(T.canon(t.ops[1])):
+                sq_ops.append(T.canon(t.ops[0]))
+        ex = RFN.Extract()
+        stop = None
+        for cand in sq_ops:
+            try:
+                cc = ex.cases_abs(cand) if T.single_term(cand) is None else ex.cases(cand)
+            except NotReal:
+                continue
+            ats = set()
+            for (_, f) in cc:
+                ats |= f.atoms()
+            if all(TR.is_ax(ex.atoms[a], track) or (T.single_term(ex.atoms[a]) is not None and T.single_term(ex.atoms[a]).name.startswith(('sqrt', 'call:llvm.sqrt', 'x86.sqrt', 'llvm.sqrt'))) for a in ats):
+                degs = [max([sum(e for _, e in m) for m in f.num] or [0]) for (_, f) in cc]
+                if stop is None or max(degs) < stop[1]:
+                    stop = (cand, max(degs), cc)
+        if stop is None:
+            raise Mismatch('no transformed argument (operand of a squaring) found')
+        ucases = stop[2]
+        cs = ex.cases(term)
+        condmap = dict(getattr(ex, 'conds', {}))
+        argname = None
+        points = set()
+        for t in walk_terms(term):
+            if t.kind == 'arg' and t.attrs == track:
+                argname = t.name
+            if t.name.startswith('f') and t.name[1:] in ('olt', 'ole', 'ogt', 'oge', 'ult', 'ule', 'ugt', 'uge') and t.width == 1:
+                points |= set(abs(x) for x in c10cont.affine_cmp(ex, t, None))
+        if argname is None:
+            raise Mismatch('no argument')
+        cuts = sorted(set([Fr(0), Fr(1)] + [x for x in points if 0 < x < 1]))
+        sign = -1 if sg else 1
+        for a, b in zip(cuts, cuts[1:]):
+            h = (b - a) / 2
+            evs = [PE.PointEval({argname: sign * x_}) for x_ in (a + h / 16, a + h, b - h / 16)]
+            chosen = []
+            for (conds, g) in cs:
+                try:
+                    ok3 = [all(bool(ev.bits(condmap[ck]) & 1) == taken for (ck, taken) in conds) for ev in evs]
+                except (PE.Unevaluable, KeyError, ValueError, ZeroDivisionError) as e:
+                    out['cases'].append({'verdict': 'mismatch', 'x_range': (float(a), float(b)), 'sign': sign, 'why': 'a case condition cannot be evaluated: %s' % e})
+                    chosen = None
+                    break
+                if any(ok3) and not all(ok3):
+                    out['cases'].append({'verdict': 'mismatch', 'x_range': (float(a), float(b)), 'sign': sign, 'why': 'a case condition changes inside the piece'})
+                    chosen = None
+                    break
+                if all(ok3):
+                    chosen.append((conds, g))
+            if chosen is None:
+                continue
+            if len(chosen) != 1:
+                out['cases'].append({'verdict': 'mismatch', 'x_range': (float(a), float(b)), 'sign': sign, 'why': '%d select cases serve the piece' % len(chosen)})
+                continue
+            conds, g = chosen[0]
+            if sg:
+                # x = -|x|: the atom -|x| was read as -(|x| atom) by the extractor; nothing to do
+                pass
+            rec = {'x_range': (float(a), float(b)), 'sign': sign}
+            try:
+                rec.update(one_case(ex, ex, g, conds, ucases, a, b, track, bits, 'asin'))
+                # acos(x) = pi/2 - asin(x): the offset must be an ODD multiple of pi/4 ... of pi/2 resp. pi: checked by one_case as a multiple of pi/4; which multiple:
+                want = None
+                if b <= Fr(1, 2):
+                    want = 2                               # pi/2 -+ asin|x|
+                elif sign > 0:
+                    want = 0                               # 2 asin(sqrt((1 - x)/2))
+                else:
+                    want = 4                               # pi - 2 asin(sqrt((1 - |x|)/2))
+                want_slope = (-sign) if b <= Fr(1, 2) else 2 * sign
+                if rec.get('offset_multiple_of_pio4') == want and rec.get('slope') != want_slope:
+                    rec['ulp_exact'] = Fr(10 ** 9)
+                    rec['ulp'] = float('inf')
+                    rec['why'] = 'slope %s in the transformed argument, acos needs %s on this piece' % (rec.get('slope'), want_slope)
+                if rec.get('offset_multiple_of_pio4') != want:
+                    rec['ulp_exact'] = Fr(10 ** 9)
+                    rec['ulp'] = float('inf')
+                    rec['why'] = 'offset %s pi/4, acos needs %s pi/4 on this piece' % (rec.get('offset_multiple_of_pio4'), want)
+                rec['verdict'] = 'ok' if rec.pop('ulp_exact') <= thr else 'bad'
+            except Mismatch as e:
+                rec.update(verdict='mismatch', why=str(e)[:200])
+            except ZeroDivisionError as e:
+                rec.update(verdict='mismatch', why='zero division: %s' % e)
+            out['cases'].append(rec)
+    return out
